@@ -188,6 +188,11 @@ fn dispatch_search(cmd: &str, args: &[String], tier: &String, seed: u64, out: &S
         "c07-real" => props::c0607::replay_real(&engine_plain(&args), &arg(&args, "--prior").unwrap_or_default(), &arg(&args, "--target").unwrap(), &arg(&args, "--go").unwrap(), arg(&args, "--budget").unwrap().parse().unwrap()),
         "c07-big" => props::c0607::replay_big(&arg(&args, "--fen").unwrap(), &arg(&args, "--stages").unwrap(), arg(&args, "--stage").unwrap().parse().unwrap(), arg(&args, "--which").unwrap().parse().unwrap(), arg(&args, "--budget").unwrap().parse().unwrap()),
         "c07-go" => props::c0607::replay_go(&arg(&args, "--cmds").unwrap()),
+        "c15-engine" => {
+            props::c15engine::run(&tier, seed, &out);
+            0
+        }
+        "c15-engine-one" => props::c15engine::replay(&arg(&args, "--seq").unwrap()),
         "c08" => {
             props::c08::run(&tier, seed, &out);
             0
@@ -308,6 +313,7 @@ fn dispatch_c11(cmd: &str, args: &[String], tier: &String, seed: u64, out: &Stri
             props::c11::run(&tier, seed, &out);
             0
         }
+        "c11-search-one" => props::c11::replay_search_one(&arg(&args, "--fen").unwrap(), arg(&args, "--depth").and_then(|c| c.parse().ok()).unwrap_or(3), arg(&args, "--cap").and_then(|c| c.parse().ok()).unwrap_or(6000)),
         "c11-one" => props::c11::replay_one(&arg(&args, "--fen").unwrap(), seed),
         _ => return None,
     })
